@@ -11,6 +11,7 @@ import random
 
 from .. import core
 from .. import acclib as al
+from .. import replaylib as rl
 
 
 def _strip(obs):
@@ -59,6 +60,12 @@ def replay(ctx, rec, found):
             report("reset-not-fresh", len(h), {"after_reset": a, "fresh_element": b})
 
 
+def _worker(rec):
+    found = {}
+    replay(None, rec, found)
+    return found, (rl.case_hash([rec["kind"], rec["h"]]), any(o["op"] == "f" for o in rec["h"]))
+
+
 def construction(ctx):
     """Documented construction rules of the accumulators (the element kinds of the model use the valid forms)."""
     import lena.core
@@ -96,18 +103,25 @@ def run(ctx):
                "(Count(count=), Sum(total=) are documented to reset to 0)")
     ctx.assume("NumpyHistogram is not exercised (numpy is not installed); FillRequest/FillRequestSeq.reset belong to C16")
     cover = ("Fill", "Compute", "Reset")
-    ctx.mc("Accumulators", "Accumulators_%s.cfg" % tag, coverage=True, must_cover=cover)
+    quick_recs = None
+    if ctx.thorough:
+        ctx.mc("Accumulators", "Accumulators_thorough.cfg", coverage=True, must_cover=cover)
+    else:
+        # quick: one TLC run checks the invariants and exports the behaviours
+        quick_recs = rl.mc_and_export(ctx, "Accumulators", "Accumulators_quick.cfg", cover, min_records=5000)
     if ctx.thorough:
         ctx.mc("Accumulators", "Accumulators_wide.cfg", coverage=True, must_cover=cover)
-        ctx.mc("Accumulators", "Accumulators_sim.cfg", simulate=40000, depth=15)
+        ctx.mc("Accumulators", "Accumulators_sim.cfg", simulate=15000, depth=15)
     # ---- spec -> code
     found = {}
     cfgs = ["Accumulators_%s_export.cfg" % tag] + (["Accumulators_wide_export.cfg"] if ctx.thorough else [])
     for cfg in cfgs:
-        recs = ctx.export("Accumulators", cfg, min_records=5000)
-        for rec in recs:
-            replay(ctx, rec, found)
-            ctx.case([rec["kind"], rec["h"]], nontrivial=any(o["op"] == "f" for o in rec["h"]))
+        recs = quick_recs if quick_recs is not None else ctx.export("Accumulators", cfg, min_records=5000)
+        for f, case in rl.pmap(_worker, recs):
+            rl.add_cases(ctx, [case])
+            for key, val in f.items():
+                if key not in found or len(val["history"]) < len(found[key]["history"]):
+                    found[key] = val
         ctx.sample({"spec_behaviour": recs[len(recs) // 3]})
         ctx.sample({"spec_behaviour": recs[(2 * len(recs)) // 3]})
     for key in sorted(found):
@@ -116,7 +130,7 @@ def run(ctx):
     # ---- code -> spec
     rnd = random.Random(ctx.seed)
     histories = []
-    for _ in range(6000 if ctx.thorough else 700):
+    for _ in range(4000 if ctx.thorough else 700):
         try:
             kind, events = al.record_history(rnd, max_ops=30 if ctx.thorough else 22)
         except al.Abort as ab:
